@@ -149,6 +149,7 @@ def run(R):
     run_print_stream(R, 'C02', 'LTL', 800 if R.thorough else 100)
     cs = cases(R)
     run_mc(R, 'LTL', cs)
+    long_structures(R, 'C02', 'LTL')
     # or/and nodes with 3-5 (or 1) operands, each a distinct temporal formula: an operand in position >= 3 must count
     run_mc(R, 'LTL', wide_cases(R.rng, 2500 if R.thorough else 250, 'LTL'), label='_wide_connectives')
     rng = R.rng
